@@ -297,7 +297,7 @@ func GenMki(r *common.Rand, sh Shape, g *common.Gen, signer string) string {
 	}
 	hl := "-"
 	if r.Chance(1, 2) {
-		hl = strconv.Itoa(common.Pick(r, []int{0, 1, 64, 255}))
+		hl = strconv.Itoa(common.Pick(r, []int{0, 1, 64, 255, 255, 0, 1, 64, 256, 300, 65536}))
 	}
 	b := func() string {
 		if r.Chance(1, 2) {
